@@ -6,6 +6,10 @@ ALL = ["C%02d" % i for i in range(1, 20)]
 
 # id -> (technique, level text, level note, design ref)
 CLAIMED = {
+ "C03": ("rapid property-based testing: generated directive-bearing texts x 15 targets vs. an independent line model; exhaustive enumeration of the shipped uses x 15 targets",
+         "Generated search: profile/sub-profile/abstraction/tunable texts from a segment model (unguarded lines, inline and paragraph directives, repeated identical directives, 1-3 filters from distributions, families, ABI, version and non-matching words) for one of the 15 (distribution, ABI, version) targets; the non-blank lines produced by directive.Run must equal those of an independent model written from the documentation, and no marker may survive. The 43 shipped uses are enumerated completely against all 15 targets with the same oracle.",
+         "Trusts the line model in c03_test.go (family table from docs/development/directives.md); blank lines are not compared (the implementation legitimately leaves an empty line where a rule was). In-process the target globals are set directly; the CLI plumbing and the real family table are covered by the real-build stage.",
+         "DESIGN.md §2 C03"),
  "C13": ("rapid property-based testing: generated preambles vs. an independent cartesian expander and the reference parser's own variable expansion (differential)",
          "Generated search over preamble layouts (definitions in any order, appends anywhere after the definition, interleaved comment/abi/include/alias lines, references nested to any depth, repeated and adjacent references): every variable and attachment must equal an independent 20-line cartesian expander, and on every 4th case apparmor_parser's -D expanded-variables output; the non-variable preamble rules must survive unchanged and in order; injected faults (undefined reference, self-reference, second '=') must give an error, not a panic, and be rejected by the reference too.",
          "Trusts apparmor_parser 3.0.8 as the reference expansion, the model expander in c13_test.go, set comparison after collapsing '//'. Indirect reference cycles are not generated (not listed by the statement; they would overflow the stack of the test process). A reference-parser hang (seen on ~0.1% of valid inputs) is counted as inconclusive.",
